@@ -1,14 +1,27 @@
 /- Dispatch table of the driver: stream id → handler. Stateful streams thread `DrvState`. -/
 import Voi.Drv.Ed25519
+import Voi.Drv.Scalar
+import Voi.Drv.Curve
+import Voi.Drv.Merlin
+import Voi.Drv.X25519
+import Voi.Drv.Ristretto
 namespace Voi.Drv
 
 structure DrvState where
-  dummy : Nat := 0
+  merlin : MerlinDrv := {}
 
 def dispatch (st : DrvState) (ws : List String) : DrvState × String :=
   match ws with
   | "V1" :: op :: a => (st, handleV1 op a)
   | "K1" :: op :: a => (st, handleK1 op a)
+  | "S1" :: op :: a => (st, handleS1 op a)
+  | "R1" :: op :: a => (st, handleR1 op a)
+  | "D1" :: op :: a => (st, handleD1 op a)
+  | "G1" :: op :: a => (st, handleG1 op a)
+  | "M1" :: op :: a => let (m, r) := handleM1 st.merlin op a; ({ st with merlin := m }, r)
+  | "S0" :: op :: a => (st, handleS0 op a)
+  | "X1" :: op :: a => (st, handleX1 op a)
+  | "T1" :: op :: a => (st, handleT1 op a)
   | _ => (st, "bad-op")
 
 end Voi.Drv
